@@ -497,7 +497,7 @@ func runCase(req string) (obs string) {
 			}
 			hi, err := strconv.Atoi(spec[1 : len(spec)-1])
 			kind := spec[len(spec)-1]
-			if err != nil || !strings.ContainsRune("pndez", rune(kind)) || find(hi) != nil {
+			if err != nil || !strings.ContainsRune("pndezt", rune(kind)) || find(hi) != nil {
 				return "bad-op"
 			}
 			for _, g := range gone {
@@ -559,7 +559,11 @@ func runCase(req string) (obs string) {
 					return nil, nil
 				})
 			} else if h.hasPub {
-				h.h = r.AddHandler(name, "in-"+name, h.obj, "out-"+name, &recPub{l}, func(msg *message.Message) ([]*message.Message, error) {
+				pubTopic := "out-" + name
+				if kind == 't' { // a real publisher and the EMPTY publish topic
+					pubTopic = ""
+				}
+				h.h = r.AddHandler(name, "in-"+name, h.obj, pubTopic, &recPub{l}, func(msg *message.Message) ([]*message.Message, error) {
 					mark(msg)
 					switch kind {
 					case 'd': // two distinct messages with the same UUID
@@ -864,7 +868,7 @@ func randomProg(rng *wh.Rng, maxLen int) string {
 					name = "=" + wh.HexS(freeNames[0])
 					freeNames = freeNames[1:]
 				}
-				toks = append(toks, "A"+strconv.Itoa(h)+rng.Pick("p", "p", "n", "d", "e", "z")+app+name)
+				toks = append(toks, "A"+strconv.Itoa(h)+rng.Pick("p", "p", "n", "d", "e", "z", "t")+app+name)
 			case k == 8 && nDecP < 5:
 				c := 1 + rng.Intn(2)
 				if nDecP+c > 5 {
@@ -998,7 +1002,7 @@ func failAndStopCases(emit func(string, string)) {
 // (watermill's transform decorator for even ids, a hand-written one for odd ids) acts on every one of them
 func multiOutputCases(emit func(string, string)) {
 	progs := []string{
-		"P2 A0z RUN", "P1,2 S3 R4 A0z A1p H0:5 RUN", "P2 A0d RUN", "P2 A0e RUN", "P1 A0d RUN", "P1,2,3,4 A0d A1e A2p A3n RUN",
+		"P2 A0z RUN", "P1,2 S3 R4 A0z A1p H0:5 RUN", "P1 A0t RUN", "P1,2 S3 A0t A1p A2n RUN", "A0t RUN P2 A1t=- RUN", "P2 A0d RUN", "P2 A0e RUN", "P1 A0d RUN", "P1,2,3,4 A0d A1e A2p A3n RUN",
 		"P2 A0p RUN P4 A1d RUN P6 A2e RUN", "GP2+P4 A0e A1d RUN", "P2,4 S1 R3 A0d H0:5 X RUN",
 	}
 	for _, p := range progs {
@@ -1175,7 +1179,7 @@ func main() {
 					spec = sp
 					out.Count("handlers.shared_decorated_subscriber")
 				}
-				out.Count("ops.addHandler" + spec[len(spec)-1:]) // p n | d e: several outputs with equal / empty UUIDs | z: nil publisher
+				out.Count("ops.addHandler" + spec[len(spec)-1:]) // p n | d e: several outputs with equal / empty UUIDs | z: nil publisher | t: empty publish topic
 				if named {
 					out.Count("handlers.explicit_name")
 					if nm == "-" {
